@@ -156,6 +156,32 @@ class Ctx(Acc):
             for res in pool.imap(_run_job, args, chunksize):
                 self.merge(res)
 
+    def fresh(self, fn, jobs, timeout=600):
+        """Run fn(job) for each (JSON-able) job in a brand-new interpreter each and merge the results."""
+        import concurrent.futures
+
+        def one(job):
+            cmd = [sys.executable, '-m', 'mc.freshjob', fn.__module__, fn.__name__, json.dumps(jsonable(job))]
+            try:
+                r = subprocess.run(cmd, capture_output=True, text=True, timeout=timeout, cwd=VERIF)
+            except subprocess.TimeoutExpired:
+                a = Acc()
+                a.add('_job_timeouts')
+                a.notes['timeout_job'] = repr(job)[:300]
+                return a.result()
+            for line in r.stdout.splitlines():
+                if line.startswith('FRESHJOB-RESULT '):
+                    res = json.loads(line[len('FRESHJOB-RESULT '):])
+                    res['violations'] = [tuple(v) for v in res['violations']]
+                    return res
+            a = Acc()
+            a.add('_job_errors')
+            a.notes['job_error'] = (r.stderr or r.stdout)[-1500:] + ' JOB=' + repr(job)[:300]
+            return a.result()
+        with concurrent.futures.ThreadPoolExecutor(max(1, min(NPROC, len(jobs)))) as ex:
+            for res in ex.map(one, list(jobs)):
+                self.merge(res)
+
     # ------------------------------------------------------------------
     def finish(self):
         from mc import findings
